@@ -49,7 +49,7 @@ ANOMALIES = {
 
 LNAMES = {0: 'get', 1: 'return', 2: 'take', 3: 'resize', 4: 'close', 5: 'retain', 6: 'prepare', 7: 'prepare x2',
           8: 'cache.clear', 9: 'cache.remove', 10: 'registry.clear', 11: 'registry.remove', 12: 'arm query',
-          13: 'arm parse', 14: 'arm connect', 15: 'server hangs up'}
+          13: 'arm parse', 14: 'arm connect', 15: 'server hangs up', 16: 'prepare via transaction'}
 METHODS = ['Fast', 'Verified', 'Clean', 'Custom']
 
 
@@ -170,7 +170,7 @@ def expected_check(cfg):
     m = cfg[1]
     if m == 0:
         return []
-    return [{1: 0, 2: 1}.get(m, 10 + cfg[2])]
+    return [{1: 0, 2: 1}.get(m, 0 if cfg[2] == 2 else 10 + cfg[2])]   # custom text 2 is the empty string (sql id 0)
 
 
 def label_key(l):
@@ -276,6 +276,33 @@ def monitor_trace(t, P):
                         exp = (5, -1, -1)
                 if d['res'] != exp:
                     return i, 'prepare of %s on client %d returned %s, expected %s (statement of this very Parse)' % (key, c, d['res'], exp)
+        elif k == 16:
+            # the same cache through a Transaction wrapper (3 transaction, 4 nested, 5 savepoint, 6 builder):
+            # START TRANSACTION .. COMMIT around it, a hit sends no Parse, a miss one Parse for exactly this key
+            key = label_key(l)
+            ms = by_conn.get(c, [])
+            if len(by_conn) > (1 if ms else 0):
+                return i, 'prepare on client %d caused messages on other connections: %s' % (c, d['msgs'])
+            w = l[2]
+            pre = {3: [24], 6: [24]}.get(w, [24, 22])
+            post = {3: [21], 6: [21]}.get(w, [23, 21])
+            qs = [m[2] for m in ms if m[1] == 1]
+            ps = [m for m in ms if m[1] == 2]
+            if qs != pre + post:
+                return i, 'transaction wrapper %d on client %d sent the simple queries %s, expected %s' % (w, c, qs, pre + post)
+            hit = ref[c].get(key)
+            if hit is not None:
+                if ps:
+                    return i, ('cache hit for %s on client %d through a transaction wrapper (%d) caused a Parse: %s - '
+                               'the wrapper does not use the client\'s statement cache' % (key, c, w, ps))
+                if d['res'] != (3, c, hit):
+                    return i, 'cache hit for %s on client %d returned %s, stored statement is %s' % (key, c, d['res'], (3, c, hit))
+            else:
+                if len(ps) != 1 or (ps[0][3], tuple(ps[0][5:])) != key or [m[1] for m in ms] != [1] * len(pre) + [2] + [1] * len(post):
+                    return i, 'cache miss for %s on client %d through a transaction wrapper: messages %s' % (key, c, ms)
+                if d['res'] != (3, c, ps[0][2]):
+                    return i, 'prepare of %s on client %d returned %s, expected the statement of this Parse' % (key, c, d['res'])
+                ref[c][key] = ps[0][2]
         elif k == 8:
             ref[c] = {}
         elif k == 9:
@@ -304,7 +331,7 @@ def monitor_trace(t, P):
             armq[c] = l[2]
         elif k == 13:
             armp[c] = l[2]
-        if d['msgs'] and k not in (0, 6, 7):
+        if d['msgs'] and k not in (0, 6, 7, 16):
             return i, 'operation %s caused frontend messages %s' % (fmt_label(l), d['msgs'])
         # size() == number of keys of the reference map, for every client ever created
         for x, (cl, sz) in enumerate(d['conns']):
